@@ -66,6 +66,11 @@ RetClauses(r) ==
             \* dflt = 2 (modes restart, cyc; family spd_m, contrast <= 10): restarted methods with small restart
             \* lengths over many cycles (fresh and reused object) and cycles without pre-smoothing (npre = 0 with
             \* ncycle / pre_cycles in {2,3}) converge within the budget
+            \* mode scale: the same system with the right-hand side multiplied by a power of two (exact in binary
+            \* floating point): same iteration count and same reported relative residual as at scale 2^0; the
+            \* zero-rhs shortcut is taken only below the library's own threshold ||f|| < 2 eps (flag `zero`)
+            <<"scale-invariant", (jd /\ r.mode = "scale" /\ Has(r, "it0") /\ r.it0 >= 0 /\ r.zero = 0) =>
+                    (r.it = r.it0 /\ AbsI(r.rep - r.rep0) <= 1)>>,
             <<"converges-within-budget", (wf /\ r.dflt = 2) => (jd /\ r.it < r.maxit /\ r.rep <= r.tol)>> >>
 
 \* Richardson on spd_m: the per-step reduction is the contraction of the cycle (compared
